@@ -5,6 +5,11 @@ import json, random, copy
 VEC4 = {"k": "vec", "n": 4, "s": "f32"}
 
 
+def json_copy(x):
+    import json as _j
+    return _j.loads(_j.dumps(x))
+
+
 def opts(**kw):
     o = {"bmv": False, "bmh": False, "enc": False, "serde": False, "mv": "rust", "rustfmt": False, "validate": "none"}
     o.update(kw)
@@ -421,6 +426,21 @@ def deep_use_cases(push):
     return out
 
 
+def many_function_cases():
+    out = []
+    for nfn, users in ((140, (3, 131)), (300, (5, 133, 261)), (260, (0, 128, 256, 259)), (520, (7, 263, 519))):
+        S = _base([])
+        for j, u in enumerate(users):
+            S["globals"].append({"name": "b%d" % j, "space": "storage_r", "group": "0", "binding": str(j), "ty": {"k": "array", "n": 4, "e": {"k": "scalar", "s": "u32"}}})
+        for i in range(nfn):
+            body = [{"k": "access", "g": "b%d" % users.index(i), "how": "load"}] if i in users else []
+            S["functions"].append({"name": "fn%d" % i, "ret": (i % 2 == 0), "body": body})
+        S["entries"].append({"name": "main", "stage": "compute", "params": [], "wg": ["1"], "body": [{"k": "call", "f": "fn%d" % i, "expr": (i % 2 == 0)} for i in range(nfn)]})
+        S["entries"].append({"name": "fs", "stage": "fragment", "params": [], "wg": [], "body": [{"k": "call", "f": "fn%d" % users[-1], "expr": (users[-1] % 2 == 0)}]})
+        out.append({"id": "manyfn-%d" % nfn, "family": "many-functions", "S": S, "opts": opts()})
+    return out
+
+
 def nested(ctx, depth, ret=False):
     """one function whose body nests `ctx` blocks `depth` deep around a call"""
     S = _base()
@@ -585,6 +605,11 @@ def push_cases(rng, n):
     # every leaf type once with every usage pattern class
     for t in leafs:
         mk(t, [], rng.choice(pats), rng.choice(stage_sets), rng.random() < 0.5)
+    # large push constants: 144, 192, 256 bytes (above every "guaranteed minimum")
+    for ty in ({"k": "array", "n": 9, "e": VEC4}, {"k": "array", "n": 16, "e": VEC4}, {"k": "array", "n": 3, "e": {"k": "mat", "c": 4, "r": 4, "s": "f32"}}):
+        mk(ty, [], ["direct", "nested"], ["vertex", "fragment"], False)
+    mk({"k": "struct", "name": "PushData"}, [{"name": "PushData", "members": [{"name": "a", "ty": {"k": "mat", "c": 4, "r": 4, "s": "f32"}}, {"name": "b", "ty": {"k": "mat", "c": 4, "r": 4, "s": "f32"}}, {"name": "c", "ty": VEC4}]}],
+       ["helper"], ["vertex", "compute"], True)
     while len(cases) < n:
         r = rng.random()
         structs = []
@@ -846,6 +871,14 @@ def role_shader0(rng, big_arrays=True, entry_names=False):
                         n["with"] = comp
                     body.append(n)
         return body
+    if rng.random() < 0.2:
+        # a struct that only a module-scope constant uses (never emitted), and a struct with exactly the members of another one (emitted like it)
+        S["structs"].append({"name": "ConstOnly", "members": [{"name": "k0", "ty": {"k": "scalar", "s": "f32"}}, {"name": "k1", "ty": {"k": "vec", "n": 2, "s": "f32"}}]})
+        S["consts"].append({"name": "FOG", "expr": "ConstOnly(1.0, vec2<f32>(2.0, 3.0))", "nonscalar": True})
+    if rng.random() < 0.2 and any(x["name"] == "Store" for x in S["structs"]):
+        st = [x for x in S["structs"] if x["name"] == "Store"][0]
+        S["structs"].append({"name": "StoreTwin", "members": json_copy(st["members"])})
+        bind("store_twin", "storage_r", {"k": "struct", "name": "StoreTwin"})
     # variables without a binding may be declared anywhere between the resources
     plain = [g_ for g_ in S["globals"] if "group" not in g_]
     if plain and rng.random() < 0.6:
